@@ -47,6 +47,8 @@ LAYOUTS = {
     "codonstart": [("g0", [(12, 72)], 1, 2), ("g1", [(78, 138)], -1, 3), ("g2", [(150, 210)], 1, None)],
     # two genes over the same bases on opposite strands: nothing but the strand tells their positions apart
     "opposite": [("g0", [(12, 72)], 1, None), ("g1", [(12, 72)], -1, None), ("g2", [(150, 210)], 1, None)],
+    # a gene long enough for peptide sequences that do not fit on one line of a GenBank file
+    "long": [("g0", [(12, 192)], 1, None), ("g1", [(198, 228)], -1, None)],
     "origin": [("g0", [(12, 72)], 1, None), ("g1", [(78, 138)], -1, None), ("g2", [(210, 240), (0, 30)], 1, None)],
     "origin-reverse": [("g0", [(30, 90)], 1, None), ("g1", [(100, 160)], 1, None), ("g2", [(222, 240), (0, 42)], -1, None)],
     # an origin-spanning gene with genes shortly before and after it and one far away: with the "spread" rules this gives one
@@ -243,6 +245,12 @@ def build_record(spec):
                          peptide_subclass="Class I", score=12.5, monoisotopic_mass=100.25, molecular_weight=110.5,
                          alternative_weights=[120.5, 130.5])
         rec.add_cds_motif(pre)
+    if "prepeptide-long" in extras and "prepeptide" not in extras and len(rec.get_cds_features()[0].location) >= 150:
+        # a precursor whose leader (45 residues) is longer than a GenBank line
+        gene = rec.get_cds_features()[0]
+        total = len(gene.location) // 3
+        rec.add_cds_motif(Prepeptide(gene.location, "lassopeptide", "C" * (total - 48), gene.get_name(), "lassopeptides", leader="L" * 45, tail="T" * 3,
+                                     peptide_subclass="Class II", score=1.5, monoisotopic_mass=10.25, molecular_weight=11.5))
     if "smiles" in extras and rec.get_candidate_clusters():
         # what the NRPS/PKS structure prediction's results do to a candidate cluster (the module itself needs external tools):
         # only the first candidate cluster gets a structure, the others stay without
@@ -381,7 +389,7 @@ def _parent_number(proto):
 
 
 EXTRAS_MENU = ["pfam", "nrps", "prepeptide", "tta", "misc", "gene", "source", "cdsnote", "prepeptide-plain", "smiles", "nrps-double",
-               "smiles-long", "smcog-function", "smiles-each"]
+               "smiles-long", "smcog-function", "smiles-each", "prepeptide-long"]
 
 
 def specs(tier):
@@ -413,7 +421,11 @@ def specs(tier):
                         continue
                     if rules is None and sideload is None:
                         continue
+                    if layout == "long" and (rules, sideload) not in ((None, "both"), ("single", "sub")):
+                        continue
                     for extras in extra_sets:
+                        if "prepeptide-long" in extras and layout != "long":
+                            continue
                         if tier == "quick" and len(extras) > 0 and (rules, sideload) not in (("mixed", None), ("twins", "both"), ("single", "sub"),
                                                                                                  (None, "both"), ("separate", "origin-sub"), (None, "two-subs"),
                                                                                                  ("spread", None), ("spread", "origin-subs"), (None, "origin-protos"),
